@@ -18,7 +18,11 @@ var collEnum = vkit.NewCollector("C09", "TestEnumOptionOrders", "complete enumer
 
 var collAbort = vkit.NewCollector("C09", "TestAbortedPublish", "a persistent bus (memory store) with a drawn permutation of WithStore, the four publish hooks, observability and a panic handler (option, SetPanicHandler or none); one of the hooks panics for a drawn subset of 1-12 events published by one or 2-4 goroutines (every Publish call is wrapped in recover); a synchronous and optionally an asynchronous handler read the store while they run. Oracle: a handler that receives an event finds exactly one record of it; events whose hooks did not panic have one record and one delivery; an event rejected by a before hook has at most one record and is delivered only if recorded; one rejected by an after hook is recorded and delivered once; offsets increase. Non-trivial = some publishes aborted and some not.")
 
+var collShapes = vkit.NewCollector("C09", "TestShapes", "1-12 events of unusually shaped Go types published in a drawn order on a persistent bus (memory store; Publish or PublishContext, statically typed or through any): field-less structs (plain, with MarshalJSON on value or pointer receiver, with MarshalText), a struct with only an unexported field and its own encoding, named int / string / slice / map / array kinds, empty and nil containers. Oracle: one record per publish in publish order, Type == EventType(event), data JSON-equal to json.Marshal(event), decodable into the event's type (and encoding back to the same JSON); the persistence error handler stays silent. Non-trivial = a field-less type with an encoding of its own was published.")
+
 func TestMain(m *testing.M) { vkit.Main(m) }
+
+func TestShapes(t *testing.T) { vkit.Check(t, collShapes, GenShapes, RunShapes) }
 
 func TestAbortedPublish(t *testing.T) { vkit.Check(t, collAbort, GenAbort, RunAbort) }
 
@@ -40,5 +44,5 @@ func TestEnumOptionOrders(t *testing.T) {
 
 func TestReplay(t *testing.T) {
 	r := vkit.NeedReplay(t)
-	_ = vkit.ReplayCase(t, r, collSeq, Run) || vkit.ReplayCase(t, r, collConc, Run) || vkit.ReplayCase(t, r, collSQL, Run) || vkit.ReplayCase(t, r, collDS, Run) || vkit.ReplayCase(t, r, collEnum, Run) || vkit.ReplayCase(t, r, collAbort, RunAbort)
+	_ = vkit.ReplayCase(t, r, collSeq, Run) || vkit.ReplayCase(t, r, collConc, Run) || vkit.ReplayCase(t, r, collSQL, Run) || vkit.ReplayCase(t, r, collDS, Run) || vkit.ReplayCase(t, r, collEnum, Run) || vkit.ReplayCase(t, r, collAbort, RunAbort) || vkit.ReplayCase(t, r, collShapes, RunShapes)
 }
